@@ -83,7 +83,7 @@ class RtRegistry:
         self.by_name[c.name] = c
         return c
 
-    def spec(self, src, types, ret):
+    def spec(self, src, types, ret, opaque=False):
         tree = ast.parse(src.strip())
         tree = ast.fix_missing_locations(_Lazy().visit(tree))
         ns = self.globals
